@@ -227,12 +227,15 @@ class Scenario(worlds.World):
             self.note("send_raised", "bad-" + k, type(e).__name__)
 
     def step_check(self):
-        n = len(self.net.live())
+        # open = the socket still exists on the client's side: not closed, or closed but lingering on unsent bytes
+        # (the console still sees that connection)
+        held = [t for t in self.net.conns if not t._conn_lost]
+        n = len(held)
         if n > 1:
             return {"clause": "single-connection",
                     "signature": "two-open-connections",
                     "message": f"{n} connections held open at t={self.loop.time()}: "
-                               f"{[t.cid for t in self.net.live()]}"}
+                               f"{[(t.cid, 'closing, unsent bytes' if t.linger else 'open') for t in held]}"}
         for t in self.net.conns:
             if t.closed_by == "gc":
                 return {"clause": "abandoned-connection-closed",
@@ -309,6 +312,10 @@ class Scenario(worlds.World):
         if expect not in wrote:
             return self._v("still-transmitting", "a command submitted after the network behaves again "
                                                  "was not written on the live connection")
+        frs, residue, err = framing.split(self.gen, wrote)
+        if err or residue or len(frs) != 1 or not frs[0].crc_ok or frs[0].data != expect:
+            return self._v("still-transmitting", f"the bytes written for a command submitted after the network behaves again are not "
+                                                 f"that command's frame: {wrote.hex()} ({err or ''} {len(frs)} frame(s), {len(residue or b'')} residual bytes)")
         if len(net.live()) != 1:
             return self._v("single-connection", f"{len(net.live())} live connections at the end")
         reports = self.loop_reports()
